@@ -55,6 +55,11 @@ inductive Final where
   | outOfFuel
   deriving DecidableEq, Repr, Inhabited
 
+/-- The fiber ended because the plan ran out (as opposed to success, `DontRetry`, `IgnoreWriteError`). -/
+def Final.planRanOut : Final → Bool
+  | .exhausted _ => true
+  | _ => false
+
 /-- Loop variables of the fiber. -/
 structure Loc where
   /-- number of `run_request_once` calls made so far (index of the next outcome) -/
